@@ -377,4 +377,109 @@ theorem sim_buildStack {w : Walker Node} {a : TW Node} (h : Sim H ps w a) (posit
     · exact (hprops sp h1).2
     · exact h.counters sp h1
 
+/-- `build_stack` to the root position (only possible with an empty stack and no parent page) -/
+theorem sim_buildStack_root {w : Walker Node} {a : TW Node} (h : Sim H ps w a) (position : Pos) (hpw : position.WF)
+    (hnil : position.path = []) (hst : w.stack = []) (hpar : w.parentPage = none) :
+    ∃ w', w.buildStack H ps position = .ok w' ∧ Sim H ps w' ({ a with pos := [] } : TW Node) ∧ Same w w' ∧
+      w'.childPageRoots = w.childPageRoots := by
+  have hd0 : position.depth = 0 := by
+    rw [← position.path_length hpw, hnil]; rfl
+  unfold Walker.buildStack
+  rw [pageId_root position hd0]
+  simp only [Walker.assertPageInScope, hpar, Option.isNone_none, if_true]
+  rw [hst]
+  simp only [List.length_nil, Walker.popAll]
+  refine ⟨_, rfl, ?_, ⟨hpar.symm, rfl, rfl, rfl, rfl⟩, rfl⟩
+  refine ⟨hpw, hnil, h.root, ?_, ?_, ?_, ?_, ?_, h.norecon, h.cpr⟩
+  · simp
+  · intro sp rest e; cases e
+  · trivial
+  · intro sp hsp; cases hsp
+  · intro sp hsp; cases hsp
+
+/-! ## `replace_terminal` -/
+
+theorem sim_replaceTerminal (hs : H.Sound) (hfresh : ∀ P, (ps.fresh P).length = 126) {S' : List (Key × VH)}
+    (hk : KeysOK S') {w : Walker Node} {a : TW Node} (h : Sim H ps w a)
+    (hscope : (a.pos = [] ∧ w.parentPage = none) ∨ 6 * k0 w.parentPage < a.pos.length)
+    (hterm : H.kind a.cur ≠ .internal) :
+    ∃ w', w.replaceTerminal H ps (sub S' a.pos) = .ok w' ∧
+      Sim H ps w' (a.replaceTerminal H (cfgOf H ps w.parentPage) (sub S' a.pos)) ∧ Same w w' ∧
+      w'.childPageRoots = w.childPageRoots := by
+  have hdep := pos_depth_pos h.wf h.pos
+  have hlen := sim_len H ps h
+  -- the node at the position
+  have hnode : (if w.position.isRoot = true then (.ok w.root : WR Node) else w.node H) = .ok a.cur := by
+    rcases hscope with ⟨hn, _⟩ | hd
+    · have : w.position.isRoot = true := by unfold Pos.isRoot; rw [hdep, hn]; rfl
+      rw [if_pos this, h.root]
+      unfold TW.cur; rw [hn]
+    · have hne := sim_pos_ne (w := w) hd
+      have : ¬ w.position.isRoot = true := by
+        unfold Pos.isRoot; rw [hdep]; simp; exact hne
+      rw [if_neg this]
+      exact sim_node H ps h hd
+  unfold Walker.replaceTerminal TW.replaceTerminal
+  rw [hnode]
+  simp only
+  rw [if_neg (by intro hh; exact hterm hh.2)]
+  rw [hdep, buildEvents_sub H hk a.pos hlen]
+  simp only
+  -- the calls are safe
+  have hsafe : SafeAll H (cfgOf H ps w.parentPage) (6 * k0 w.parentPage) w.parentPage.isNone a.pos.length a
+      (if sub S' a.pos = [] then [.terminator]
+       else treeEv H a.pos.length (256 - a.pos.length) 0 (sub S' a.pos) none) := by
+    have hsc' : (a.pos = [] ∧ w.parentPage.isNone = true) ∨ 6 * k0 w.parentPage < a.pos.length := by
+      rcases hscope with ⟨hn, hp⟩ | hd
+      · exact Or.inl ⟨hn, by rw [hp]; rfl⟩
+      · exact Or.inr hd
+    by_cases he : sub S' a.pos = []
+    · rw [if_pos he]
+      exact ⟨hsc', trivial⟩
+    · rw [if_neg he]
+      have := tw_visit_tree_safe H hs hk (cfgOf H ps w.parentPage) a.pos (6 * k0 w.parentPage) w.parentPage.isNone
+        (by
+          intro hn
+          have : w.parentPage = none := Option.isNone_iff_eq_none.mp hn
+          rw [this]; rfl)
+        hsc' (256 - a.pos.length) a.pos none a.pos a rfl (List.prefix_refl _) hlen he (List.prefix_refl _) ⟨rfl, rfl⟩
+      simpa using this
+  obtain ⟨w2, hw2, hs2, hsame2, hcpr2⟩ := sim_visitAll H ps hs hfresh a.pos.length _
+    ({ w with prevNode := some a.cur } : Walker Node) a (sim_other_fields H ps h w.siblingStack (some a.cur) w.lastPosition)
+    hsafe
+  rw [hw2]
+  simp only
+  -- the position is back where it started
+  have hpos2 : (TW.visitAll H (cfgOf H ps w.parentPage) a.pos.length a
+      (if sub S' a.pos = [] then [.terminator]
+       else treeEv H a.pos.length (256 - a.pos.length) 0 (sub S' a.pos) none)).pos = a.pos := by
+    have := (tw_replace_spec H (fun _ => True) hs hk (cfgOf H ps w.parentPage) a hlen).1
+    unfold TW.replaceTerminal at this
+    rw [buildEvents_sub H hk a.pos hlen] at this
+    exact this
+  have hdep2 := pos_depth_pos hs2.wf hs2.pos
+  have hsame : Same w w2 := ⟨hsame2.1, hsame2.2.1, hsame2.2.2.1, hsame2.2.2.2.1, hsame2.2.2.2.2⟩
+  rcases hscope with ⟨hn, hp⟩ | hd
+  · have hroot2 : w2.position.isRoot = true := by
+      unfold Pos.isRoot; rw [hdep2, hpos2, hn]; rfl
+    have hst2 : w2.stack = [] := hs2.stackE.mpr (by rw [hpos2, hn]; simp)
+    rw [if_neg (by simp [hroot2])]
+    rw [if_pos (by rw [hst2]; rfl)]
+    exact ⟨w2, rfl, hs2, hsame, hcpr2⟩
+  · have hne := sim_pos_ne (w := w) hd
+    have hroot2 : ¬ w2.position.isRoot = true := by
+      unfold Pos.isRoot; rw [hdep2, hpos2]; simp; exact hne
+    rw [if_pos hroot2]
+    obtain ⟨top, rest, hst2, htop2⟩ := sim_stack_cons H ps hs2 (by
+      show 6 * k0 w2.parentPage < _
+      rw [hsame2.1, hpos2]; exact hd)
+    rw [hst2]
+    simp only
+    have hd2 : 1 ≤ w2.position.depth := by
+      rw [hdep2, hpos2]; exact List.length_pos_iff.mpr hne
+    rw [pageId_eq w2.position hs2.wf hd2]
+    simp only
+    rw [if_pos (by rw [htop2, hs2.pos])]
+    exact ⟨w2, rfl, hs2, hsame, hcpr2⟩
+
 end Nomt.Walker
